@@ -278,3 +278,311 @@ Proof.
 Qed.
 
 End Faithful.
+
+(* ---- the incremental walk used by the checker IS pos_at ---------------------------- *)
+
+Lemma walk_to_spec nl : forall cl p b off w,
+  walk_to nl cl p b off = Some w ->
+  exists pre,
+    split_cl cl (off - p_byte p) = Some (pre, w_cl w) /\
+    w_pos w = (let '(l, c) := count_clusters nl (p_line p) (p_col p) b pre in mkPos l c off) /\
+    w_data w = skipn (Z.to_nat (off - p_byte p)) b /\
+    p_byte p <= off.
+Proof.
+  induction cl as [|n cl IH]; intros p b off w H; cbn [walk_to] in H.
+  - destruct (p_byte p =? off) eqn:E; [|discriminate]. apply Z.eqb_eq in E. inversion H; subst w.
+    exists []. replace (off - p_byte p) with 0 by lia. cbn [w_cl w_pos w_data].
+    repeat split; [|lia]. destruct p as [pl pc pb]; cbn in *. subst. reflexivity.
+  - destruct (p_byte p =? off) eqn:E.
+    + apply Z.eqb_eq in E. inversion H; subst w.
+      exists []. replace (off - p_byte p) with 0 by lia. cbn [w_cl w_pos w_data].
+      repeat split; [|lia]. destruct p as [pl pc pb]; cbn in *. subst. reflexivity.
+    + destruct ((0 <? n) && (p_byte p + n <=? off)) eqn:Ec; [|discriminate].
+      apply andb_true_iff in Ec. destruct Ec as [E1 E2]. apply Z.ltb_lt in E1. apply Z.leb_le in E2.
+      apply Z.eqb_neq in E. apply IH in H. destruct H as (pre & Hsp & Hpos & Hdat & Hle).
+      assert (Hb : p_byte (step_pos nl p (firstn (Z.to_nat n) b) n) = p_byte p + n).
+      { unfold step_pos. destruct (nl _); reflexivity. }
+      rewrite Hb in *. exists (n :: pre). repeat split.
+      * cbn [split_cl]. assert (En : (off - p_byte p =? 0) = false) by (apply Z.eqb_neq; lia).
+        rewrite En. assert (Ec : (0 <? n) && (n <=? off - p_byte p) = true).
+        { apply andb_true_iff. split; [apply Z.ltb_lt|apply Z.leb_le]; lia. }
+        rewrite Ec. replace (off - p_byte p - n) with (off - (p_byte p + n)) by lia.
+        rewrite Hsp. reflexivity.
+      * rewrite Hpos. cbn [count_clusters]. unfold step_pos.
+        destruct (nl (firstn (Z.to_nat n) b)); reflexivity.
+      * rewrite Hdat, skipn_skipn'. f_equal. lia.
+      * lia.
+Qed.
+
+Theorem walk_to_pos_at nl start data gcs off w :
+  walk_to nl gcs start data off = Some w -> pos_at nl start data gcs off = Some (w_pos w).
+Proof.
+  intro H. apply walk_to_spec in H. destruct H as (pre & Hsp & Hpos & _ & _).
+  unfold pos_at. rewrite Hsp, Hpos. destruct (count_clusters _ _ _ _ _). reflexivity.
+Qed.
+
+Lemma walk_ones_walk_to nl : forall cl p b off w,
+  walk_ones nl cl p b off = Some w -> walk_to nl cl p b off = Some w.
+Proof.
+  induction cl as [|n cl IH]; intros p b off w H; cbn [walk_ones walk_to] in *.
+  - exact H.
+  - destruct (p_byte p =? off); [exact H|].
+    destruct ((n =? 1) && (p_byte p + n <=? off)) eqn:Ec; [|discriminate].
+    apply andb_true_iff in Ec. destruct Ec as [E1 E2]. apply Z.eqb_eq in E1. subst n.
+    cbn [Z.ltb Z.compare andb]. rewrite E2. apply IH. exact H.
+Qed.
+
+(* continuing a walk = walking from the beginning *)
+Lemma walk_to_compose nl : forall cl p b a off w,
+  walk_to nl cl p b a = Some w -> a <= off ->
+  walk_to nl (w_cl w) (w_pos w) (w_data w) off = walk_to nl cl p b off.
+Proof.
+  induction cl as [|n cl IH]; intros p b a off w H Hle; cbn [walk_to] in H.
+  - destruct (p_byte p =? a); [|discriminate]. inversion H; subst w. reflexivity.
+  - destruct (p_byte p =? a) eqn:E; [inversion H; subst w; reflexivity|].
+    destruct ((0 <? n) && (p_byte p + n <=? a)) eqn:Ec; [|discriminate].
+    apply andb_true_iff in Ec. destruct Ec as [E1 E2]. apply Z.ltb_lt in E1. apply Z.leb_le in E2.
+    rewrite (IH _ _ _ off _ H Hle). cbn [walk_to].
+    assert (En : (p_byte p =? off) = false) by (apply Z.eqb_neq; lia). rewrite En.
+    assert (Ec : (0 <? n) && (p_byte p + n <=? off) = true).
+    { apply andb_true_iff. split; [apply Z.ltb_lt|apply Z.leb_le]; lia. }
+    rewrite Ec. reflexivity.
+Qed.
+
+(* ---- RangeScanner -------------------------------------------------------------------- *)
+
+Lemma zlen_firstn_le {A} n (l : list A) : 0 <= n <= zlen l -> zlen (firstn (Z.to_nat n) l) = n.
+Proof. intros H. unfold zlen in *. rewrite firstn_length. lia. Qed.
+
+(* the running position `new` of the loop is the canonical walk (RangeScanner's
+   line-break convention) *)
+Lemma rs_loop_new : forall cl new end_ advanced toklen adv,
+  Forall (fun n => 0 < n) cl -> sumZ cl <= zlen adv ->
+  fst (rs_loop new end_ advanced toklen adv cl) =
+  (let '(l, c) := count_clusters is_nl_rs (p_line new) (p_col new) adv cl in
+   mkPos l c (p_byte new + sumZ cl)).
+Proof.
+  induction cl as [|n cl IH]; intros new end_ advanced toklen adv Hf Hs.
+  - cbn. destruct new; cbn. f_equal. unfold sumZ. simpl. lia.
+  - inversion Hf as [|? ? Hn Hf']; subst. pose proof (sumZ_nonneg _ Hf') as Hs0.
+    assert (Hs1 : sumZ (n :: cl) = n + sumZ cl) by reflexivity. rewrite Hs1 in *.
+    assert (Hz : zlen (firstn (Z.to_nat n) adv) = n) by (apply zlen_firstn_le; lia).
+    cbn [rs_loop count_clusters]. rewrite Hz.
+    assert (Hs2 : sumZ cl <= zlen (skipn (Z.to_nat n) adv)).
+    { unfold zlen in *. rewrite skipn_length. lia. }
+    rewrite IH by assumption.
+    destruct (is_nl_rs (firstn (Z.to_nat n) adv)); cbn [p_line p_col p_byte];
+      destruct (count_clusters _ _ _ _ _); f_equal; lia.
+Qed.
+
+Lemma rs_loop_end_done : forall cl new end_ advanced toklen adv,
+  toklen <= advanced -> snd (rs_loop new end_ advanced toklen adv cl) = end_.
+Proof.
+  induction cl as [|n cl IH]; intros new end_ advanced toklen adv H; [reflexivity|].
+  cbn [rs_loop]. assert (E : (advanced <? toklen) = false) by (apply Z.ltb_ge; lia).
+  rewrite E. apply IH. pose proof (zlen_nonneg (firstn (Z.to_nat n) adv)). lia.
+Qed.
+
+(* `end` stops after the clusters that cover the token *)
+Lemma rs_loop_end : forall cl new end_ advanced toklen adv c1 c2,
+  Forall (fun n => 0 < n) cl -> sumZ cl <= zlen adv ->
+  advanced < toklen -> split_cl cl (toklen - advanced) = Some (c1, c2) ->
+  snd (rs_loop new end_ advanced toklen adv cl) =
+  (let '(l, c) := count_clusters is_nl_rs (p_line new) (p_col new) adv c1 in
+   mkPos l c (p_byte new + sumZ c1)).
+Proof.
+  induction cl as [|n cl IH]; intros new end_ advanced toklen adv c1 c2 Hf Hs Hlt Hsp.
+  - cbn [split_cl] in Hsp. assert (E : (toklen - advanced =? 0) = false) by (apply Z.eqb_neq; lia).
+    rewrite E in Hsp. discriminate.
+  - inversion Hf as [|? ? Hn Hf']; subst. pose proof (sumZ_nonneg _ Hf') as Hs0.
+    assert (Hs1 : sumZ (n :: cl) = n + sumZ cl) by reflexivity. rewrite Hs1 in *.
+    assert (Hz : zlen (firstn (Z.to_nat n) adv) = n) by (apply zlen_firstn_le; lia).
+    assert (Hs2 : sumZ cl <= zlen (skipn (Z.to_nat n) adv)).
+    { unfold zlen in *. rewrite skipn_length. lia. }
+    cbn [split_cl] in Hsp. assert (E : (toklen - advanced =? 0) = false) by (apply Z.eqb_neq; lia).
+    rewrite E in Hsp. destruct ((0 <? n) && (n <=? toklen - advanced)) eqn:Ec; [|discriminate].
+    apply andb_true_iff in Ec. destruct Ec as [_ E2]. apply Z.leb_le in E2.
+    destruct (split_cl cl (toklen - advanced - n)) as [[a b]|] eqn:Es; [|discriminate].
+    inversion Hsp; subst c1 c2. clear Hsp.
+    cbn [rs_loop]. rewrite Hz. assert (El : (advanced <? toklen) = true) by (apply Z.ltb_lt; lia).
+    rewrite El. cbn [count_clusters].
+    assert (Hsa : sumZ (n :: a) = n + sumZ a) by reflexivity. rewrite Hsa.
+    destruct (Z.eq_dec (advanced + n) toklen) as [Heq|Hne].
+    + (* the token ends with this cluster *)
+      replace (toklen - advanced - n) with 0 in Es by lia. rewrite split_cl_0 in Es.
+      inversion Es; subst a b. rewrite rs_loop_end_done by lia.
+      destruct (is_nl_rs (firstn (Z.to_nat n) adv)); cbn; f_equal; unfold sumZ; simpl; lia.
+    + replace (toklen - advanced - n) with (toklen - (advanced + n)) in Es by lia.
+      rewrite (IH _ _ (advanced + n) toklen _ a b Hf' Hs2) by (try lia; exact Es).
+      destruct (is_nl_rs (firstn (Z.to_nat n) adv)); cbn [p_line p_col p_byte];
+        destruct (count_clusters _ _ _ _ _); f_equal; lia.
+Qed.
+
+(* the split function's results are usable: every advance is a cluster
+   boundary of what remains, and the token (a prefix of the advance) ends on a
+   cluster boundary *)
+Fixpoint rs_aligned (rest : list Z) (results : list (Z * Z)) : Prop :=
+  match results with
+  | [] => True
+  | (adv, tl) :: rs =>
+      0 <= tl <= adv /\
+      exists cl rest', split_cl rest adv = Some (cl, rest') /\ is_boundary cl tl /\ rs_aligned rest' rs
+  end.
+
+Fixpoint rs_faithful (start : pos) (data gcs : list Z) (off : Z)
+    (results : list (Z * Z)) (out : list range) : Prop :=
+  match out, results with
+  | [], _ => True
+  | rg :: out', (adv, tl) :: rs =>
+      pos_at is_nl_rs start data gcs off = Some (r_start rg) /\
+      pos_at is_nl_rs start data gcs (off + tl) = Some (r_end rg) /\
+      rs_faithful start data gcs (off + adv) rs out'
+  | _ :: _, [] => False
+  end.
+
+Lemma count_firstn nl l c (x : list Z) n cl :
+  Forall (fun k => 0 < k) cl -> sumZ cl <= n -> 0 <= n <= zlen x ->
+  count_clusters nl l c (firstn (Z.to_nat n) x) cl = count_clusters nl l c x cl.
+Proof.
+  intros Hf Hs Hn. rewrite <- (firstn_skipn (Z.to_nat n) x) at 2.
+  symmetry. apply count_prefix; [exact Hf|]. rewrite zlen_firstn_le; lia.
+Qed.
+
+Lemma range_scanner_faithful_gen (start : pos) (b gcs : list Z) :
+  0 <= p_byte start ->
+  let data := skipn (Z.to_nat (p_byte start)) b in
+  forall results p rest lo pre l c,
+  split_cl gcs lo = Some (pre, rest) ->
+  Forall (fun n => 0 < n) rest ->
+  sumZ rest = zlen (skipn (Z.to_nat lo) data) ->
+  count_clusters is_nl_rs (p_line start) (p_col start) data pre = (l, c) ->
+  p = mkPos l c (p_byte start + lo) ->
+  rs_aligned rest results ->
+  exists out, range_scanner_gcs p b results rest = Some out /\
+              rs_faithful start data gcs (p_byte start + lo) results out.
+Proof.
+  intros Hsb data. induction results as [|[adv tl] rs IH]; intros p rest lo pre l c Hsp Hpos Hsum Hcnt Hp Hal.
+  - exists []. split; [reflexivity|exact I].
+  - cbn [range_scanner_gcs]. destruct (zlen b <=? p_byte p); [exists []; split; [reflexivity|exact I]|].
+    destruct Hal as (Htl & cl & rest' & Hcl & (c1 & c2 & Hc1) & Hal).
+    pose proof (split_cl_spec _ _ _ _ Hsp) as (Hgcs & Hsumpre & Hfpre).
+    pose proof (split_cl_spec _ _ _ _ Hcl) as (Hrest & Hsumcl & Hfcl).
+    pose proof (split_cl_spec _ _ _ _ Hc1) as (Hcl12 & Hsumc1 & Hfc1).
+    assert (Hlo0 : 0 <= lo) by (rewrite <- Hsumpre; apply sumZ_nonneg; exact Hfpre).
+    rewrite Hcl.
+    set (X := skipn (Z.to_nat lo) data) in *.
+    assert (Hposr' : Forall (fun n => 0 < n) rest').
+    { rewrite Hrest in Hpos. apply Forall_app in Hpos. tauto. }
+    assert (Hfrest' : 0 <= sumZ rest') by (apply sumZ_nonneg; exact Hposr').
+    assert (Hadv : 0 <= adv <= zlen X).
+    { assert (Hx : sumZ rest = sumZ cl + sumZ rest') by (rewrite Hrest; apply sumZ_app). lia. }
+    (* the slice handed to the loop *)
+    assert (Hslice : slice b (p_byte p) (p_byte p + adv) = firstn (Z.to_nat adv) X).
+    { unfold slice. rewrite Hp. cbn [p_byte]. replace (p_byte start + lo + adv - (p_byte start + lo)) with adv by lia.
+      f_equal. unfold X, data. rewrite skipn_skipn'. f_equal. lia. }
+    unfold rs_scan. rewrite Hslice.
+    destruct (rs_loop p p 0 tl (firstn (Z.to_nat adv) X) cl) as [new e] eqn:Hloop.
+    assert (Hzf : zlen (firstn (Z.to_nat adv) X) = adv) by (apply zlen_firstn_le; exact Hadv).
+    (* new *)
+    assert (Hnew : new = (let '(l2, c2) := count_clusters is_nl_rs l c X cl in mkPos l2 c2 (p_byte start + (lo + adv)))).
+    { assert (Hle : sumZ cl <= zlen (firstn (Z.to_nat adv) X)) by lia.
+      pose proof (rs_loop_new cl p p 0 tl (firstn (Z.to_nat adv) X) Hfcl Hle) as Hn.
+      rewrite Hloop in Hn. cbn [fst] in Hn. rewrite Hn. rewrite Hp. cbn [p_line p_col p_byte].
+      rewrite (count_firstn is_nl_rs l c X adv cl Hfcl) by lia.
+      destruct (count_clusters is_nl_rs l c X cl). f_equal. lia. }
+    (* end *)
+    assert (Hend : e = (let '(l1, c1') := count_clusters is_nl_rs l c X c1 in mkPos l1 c1' (p_byte start + (lo + tl)))).
+    { destruct (Z.eq_dec tl 0) as [Hz|Hnz].
+      - rewrite Hz in Hc1, Hloop |- *. rewrite split_cl_0 in Hc1. inversion Hc1; subst c1 c2.
+        pose proof (rs_loop_end_done cl p p 0 0 (firstn (Z.to_nat adv) X)) as He.
+        rewrite Hloop in He. cbn [snd] in He. rewrite He by lia. rewrite Hp. cbn. f_equal. lia.
+      - pose proof (rs_loop_end cl p p 0 tl (firstn (Z.to_nat adv) X) c1 c2 Hfcl) as He.
+        rewrite Hloop in He. cbn [snd] in He. rewrite He; [|lia|lia|rewrite Z.sub_0_r; exact Hc1].
+        rewrite Hp. cbn [p_line p_col p_byte].
+        assert (Hs12 : sumZ cl = sumZ c1 + sumZ c2) by (rewrite Hcl12; apply sumZ_app).
+        pose proof (split_cl_spec _ _ _ _ Hc1) as (_ & _ & _).
+        assert (Hc2 : 0 <= sumZ c2).
+        { assert (Forall (fun k => 0 < k) c2).
+          { rewrite Hcl12 in Hfcl. apply Forall_app in Hfcl. tauto. }
+          apply sumZ_nonneg. assumption. }
+        rewrite (count_firstn is_nl_rs l c X adv c1 Hfc1) by lia.
+        destruct (count_clusters is_nl_rs l c X c1). f_equal. lia. }
+    (* canonical positions *)
+    assert (Hsp_adv : split_cl gcs (lo + adv) = Some (pre ++ cl, rest')).
+    { rewrite (split_cl_add gcs lo adv pre rest Hsp) by lia. rewrite Hcl. reflexivity. }
+    assert (Hsp_tl : split_cl gcs (lo + tl) = Some (pre ++ c1, c2 ++ rest')).
+    { rewrite (split_cl_add gcs lo tl pre rest Hsp) by lia.
+      assert (Hx : split_cl rest tl = Some (c1, c2 ++ rest')).
+      { rewrite Hrest. replace tl with (tl + 0) by lia.
+        (* split of cl ++ rest' at tl *)
+        clear - Hc1. revert tl c1 c2 Hc1. induction cl as [|n cl IHc]; intros tl c1 c2 H.
+        - cbn [split_cl] in H. destruct (tl =? 0) eqn:E; [|discriminate]. inversion H; subst.
+          apply Z.eqb_eq in E. subst tl. cbn [app]. apply split_cl_0.
+        - cbn [split_cl] in H. destruct (tl =? 0) eqn:E.
+          + inversion H; subst. apply Z.eqb_eq in E. subst tl. apply split_cl_0.
+          + destruct ((0 <? n) && (n <=? tl)) eqn:Ec; [|discriminate].
+            destruct (split_cl cl (tl - n)) as [[x y]|] eqn:Es; [|discriminate]. inversion H; subst.
+            apply IHc in Es. rewrite Z.add_0_r in *. cbn [app split_cl]. rewrite E, Ec, Es. reflexivity. }
+      rewrite Hx. reflexivity. }
+    assert (Hskip : skipn (Z.to_nat (sumZ pre)) data = X) by (unfold X; rewrite Hsumpre; reflexivity).
+    destruct (count_clusters is_nl_rs l c X cl) as [l2 c2'] eqn:Hcc.
+    destruct (IH new rest' (lo + adv) (pre ++ cl) l2 c2') as (out & Hout & Hfa); auto.
+    { assert (Hx : sumZ rest = sumZ cl + sumZ rest') by (rewrite Hrest; apply sumZ_app).
+      replace (skipn (Z.to_nat (lo + adv)) data) with (skipn (Z.to_nat adv) X).
+      - unfold zlen in *. rewrite skipn_length. lia.
+      - unfold X. rewrite skipn_skipn'. f_equal. lia. }
+    { rewrite (count_app _ _ _ _ _ _ Hfpre), Hcnt, Hskip. exact Hcc. }
+    exists (mkRange p e :: out). split; [rewrite Hout; reflexivity|].
+    cbn [rs_faithful r_start r_end]. split; [|split].
+    + unfold pos_at. replace (p_byte start + lo - p_byte start) with lo by lia.
+      rewrite Hsp, Hcnt, Hp. reflexivity.
+    + unfold pos_at. replace (p_byte start + lo + tl - p_byte start) with (lo + tl) by lia.
+      rewrite Hsp_tl, (count_app _ _ _ _ _ _ Hfpre), Hcnt, Hskip, Hend.
+      destruct (count_clusters is_nl_rs l c X c1). f_equal. f_equal. lia.
+    + replace (p_byte start + lo + adv) with (p_byte start + (lo + adv)) by lia. exact Hfa.
+Qed.
+
+(* RangeScanner.Scan under ITS OWN convention (a cluster starting with '\r' or
+   '\n' is a line break): for any split function whose advances and tokens end
+   on cluster boundaries, every Start is pos_at of its offset and every End is
+   pos_at of Start + len(token). `data` is what the scanner actually scans:
+   b[start.Byte:] — the start position's Byte field indexes the buffer. *)
+Theorem range_scanner_faithful : forall (start : pos) (b gcs : list Z) (results : list (Z * Z)),
+  0 <= p_byte start ->
+  let data := skipn (Z.to_nat (p_byte start)) b in
+  Forall (fun n => 0 < n) gcs -> sumZ gcs = zlen data ->
+  rs_aligned gcs results ->
+  exists out, range_scanner_gcs start b results gcs = Some out /\
+              rs_faithful start data gcs (p_byte start) results out.
+Proof.
+  intros start b gcs results Hsb data Hpos Hsum Hal.
+  destruct (range_scanner_faithful_gen start b gcs Hsb results start gcs 0 [] (p_line start) (p_col start))
+    as (out & Hout & Hf); auto.
+  - apply split_cl_0.
+  - destruct start as [sl sc sb0]; cbn [p_line p_col p_byte]. rewrite Z.add_0_r. reflexivity.
+  - exists out. split; [exact Hout|]. rewrite Z.add_0_r in Hf. exact Hf.
+Qed.
+
+(* ---- the two line-break conventions differ on a lone CR --------------------------- *)
+
+(* "a\rb\nc\n", every byte its own cluster (textseg's segmentation), offset 4
+   = the byte 'c': line 2 for emitToken's convention, line 3 for RangeScanner's *)
+Theorem conventions_differ_on_lone_cr :
+  let data := [97; 13; 98; 10; 99; 10] in
+  let gcs := [1; 1; 1; 1; 1; 1] in
+  pos_at is_nl_lexer initial_pos data gcs 4 = Some (mkPos 2 1 4) /\
+  pos_at is_nl_rs initial_pos data gcs 4 = Some (mkPos 3 1 4).
+Proof. vm_compute. split; reflexivity. Qed.
+
+(* Hence "RangeScanner's positions are the canonical positions of the lexer's
+   convention" is false: *)
+Theorem range_scanner_agrees_with_lexer_convention_refuted :
+  exists (b gcs : list Z) (results : list (Z * Z)) (cls : list (list Z)) (rg : range),
+    In rg (range_scanner initial_pos b results cls) /\
+    pos_at is_nl_lexer initial_pos b gcs (p_byte (r_start rg)) <> Some (r_start rg).
+Proof.
+  (* bufio.ScanLines on "a\rb\nc\n": ("a\rb", advance 4), ("c", advance 2) *)
+  exists [97; 13; 98; 10; 99; 10], [1; 1; 1; 1; 1; 1], [(4, 3); (2, 1)], [[1; 1; 1; 1]; [1; 1]],
+         (mkRange (mkPos 3 1 4) (mkPos 3 2 5)).
+  split; [vm_compute; right; left; reflexivity|vm_compute; discriminate].
+Qed.
